@@ -162,12 +162,12 @@ func c14GateRule(c *Ctx, r *Report, pkg string) {
 				if c.calledOnlyFrom(fn, inRoot, map[*ssa.Function]bool{}) {
 					o.OK("executed by the dispatch goroutine, between two frames")
 				} else {
-					o.Bad("the dispatch goroutine delivers ARQ data only while tnc." + f + " allows it (" + c.pos(g.at.Pos()) + "), but this store runs in another goroutine, in reaction to a broadcast: a data frame that follows the enabling event at once is tested before the store and discarded, so Read misses its payload")
+					o.Bad("the dispatch goroutine delivers ARQ data only while tnc.%s allows it (%s), but this store runs in another goroutine, in reaction to a broadcast: a data frame that follows the enabling event at once is tested before the store and discarded, so Read misses its payload", f, c.pos(g.at.Pos()))
 				}
 			})
 		}
 		if nOpen == 0 {
-			r.Add("C14-gate", fnName(roots[0]), "store that opens the delivery gate tnc."+f, c.pos(g.at.Pos())).Bad("delivery is gated by tnc." + f + " but no store opens the gate: ARQ data is never delivered")
+			r.Add("C14-gate", fnName(roots[0]), "store that opens the delivery gate tnc."+f, c.pos(g.at.Pos())).Bad("delivery is gated by tnc.%s but no store opens the gate: ARQ data is never delivered", f)
 		}
 	}
 }
